@@ -60,3 +60,14 @@ Print Assumptions C15_total.
 Print Assumptions C15_subsequence.
 Print Assumptions C15_area_preserved.
 Print Assumptions C15_idempotent_refuted.
+
+(* K3: the collinearity predicate the theorems above are instantiated with is the one /repo's source
+   defines now: internal_clipper.go:isCollinear, productsAreEqual, multiplyUInt64 and triSign are
+   regenerated on every run (Gen/Kernels_gen.v) and proved equal to the model's predicate *)
+From Clip Require Import Model.ArithProofs Model.KernelOps Gen.Kernels_gen Model.KernelProofs.
+Theorem C15_collinear_from_source : forall p1 sh p2,
+  gen_isCollinear (px p1) (py p1) (px sh) (py sh) (px p2) (py p2) = isCollinear p1 sh p2.
+Proof. exact gen_isCollinear_eq. Qed.
+Theorem C15_triSign_from_source : forall x, gen_triSign x = (if x =? 1 then 0 else Z.sgn x)%Z.
+Proof. intros x. rewrite gen_triSign_eq. apply triSign_spec. Qed.
+Print Assumptions C15_collinear_from_source.
